@@ -55,6 +55,8 @@ func value(v, seq int, key interface{}) interface{} {
 		return &box{S: []int{1, 2}}
 	case 4:
 		return [1]interface{}{key}
+	case 5:
+		return (*box)(nil) // a typed nil pointer is a value like any other: only the untyped nil removes
 	}
 	return seq
 }
@@ -103,9 +105,14 @@ type firstField struct {
 
 var ff = &firstField{}
 
+// a pointer is a fine key whatever it points to
+type holdsSlice struct{ names []string }
+
+var hs = &holdsSlice{names: []string{"a"}}
+
 // Keys: equal values of distinct types, pointers, structs, and the library's own alignment key.
 var Keys = []interface{}{int(1), int64(1), "1", namedKey(1), structKey{1}, p1, p2, align.PropertyType, int(2), namedKey(2), uint8(1), structKey{2},
-	ff, &ff.A, (*int)(nil), (*namedKey)(nil)}
+	ff, &ff.A, (*int)(nil), (*namedKey)(nil), hs}
 
 type props map[int]interface{}
 
